@@ -53,6 +53,9 @@ VH_ENTRY vh_fmap_laws() {
   // readFeats: maxVal is the largest 16-bit setting value, or 0xffffffff for a feature without settings
   ASSUME(max1 <= 0xffff || max1 == 0xffffffffu);
   ASSUME(max2 <= 0xffff || max2 == 0xffffffffu);
+#ifdef MAX1      /* quick tier: the two maxima (hence field positions and widths) are given by the query; words, values and the feature chosen stay arbitrary */
+  max1 = MAX1; max2 = MAX2;
+#endif
   FeatureRef *f = vh_new<FeatureRef>(2);
   ::new (f) FeatureRef(*w.face, bits, max1, 1, 0, FeatureRef::flags_t(0), 0, 0);
   ::new (f + 1) FeatureRef(*w.face, bits, max2, 2, 0, FeatureRef::flags_t(0), 0, 0);
